@@ -25,6 +25,12 @@
 (* Picker result kinds: "ok" (subchannel A + Done), "notready" (subchannel *)
 (* B + Done; A starts READY, B starts not READY, both may flip), "nosc"    *)
 (* (ErrNoSubConnAvailable), "status" (status error), "err" (other error).  *)
+(*                                                                         *)
+(* Pickers may be stateful and an LB policy may publish the same picker    *)
+(* OBJECT again (`reswap`): that is a new publication - a new generation   *)
+(* that wakes every blocked pick - although the picker identity is the     *)
+(* same; what the object returns has changed meanwhile (for every          *)
+(* generation that holds the object).                                      *)
 (***************************************************************************)
 EXTENDS Integers, Sequences, FiniteSets, TLC
 CONSTANTS Rpcs,         \* pick goroutines
@@ -33,6 +39,7 @@ CONSTANTS Rpcs,         \* pick goroutines
           MaxGen,       \* number of updatePicker calls
           Kinds,        \* result kinds a published picker may have
           MaxFlips,     \* number of subchannel connectivity flips
+          Reswap,       \* TRUE: the LB policy may also re-publish the SAME (stateful) picker object
           Mutant        \* 0 = the code; 1.. = negative controls
 
 Scs == {"A", "B"}
@@ -44,6 +51,8 @@ VARIABLES cur,        \* current generation (pw.pickerGen)
           closedG,    \* generations whose blockingCh is closed
           upc, uold,  \* updater: "idle" | "close" ; the generation it swapped out
           res,        \* generation -> result kind of its picker ("nil": no picker / unpublished)
+          obj,        \* generation -> identity of its picker object (first generation that published it)
+          pubs,       \* number of updatePicker calls started (Level A: publications by the LB policy)
           scReady, flips,
           pc, ch, pg, \* per pick: hook it waits at, local `ch` (generation or -1 = nil), loaded generation
           cancelled, outcome,
@@ -53,12 +62,14 @@ VARIABLES cur,        \* current generation (pw.pickerGen)
           lastKind,   \* its result kind
           fresh, strict,  \* every picker call so far was >= floor / strictly newer than the previous one
           pending,    \* 1: holds an ok-result whose Done has not been called
-          retReady    \* subchannel was READY at the getReadyTransport that made the pick return
-vars == <<cur, closedG, upc, uold, res, scReady, flips, pc, ch, pg, cancelled, outcome,
-          floor, lastUsed, lastKind, fresh, strict, pending, retReady>>
+          retReady,   \* subchannel was READY at the getReadyTransport that made the pick return
+          seenPub
+          \* (seenPub: publications started when this pick last called a picker)
+vars == <<cur, closedG, upc, uold, res, obj, pubs, scReady, flips, pc, ch, pg, cancelled, outcome,
+          floor, lastUsed, lastKind, fresh, strict, pending, retReady, seenPub>>
 
 Init == /\ cur = 0 /\ closedG = {} /\ upc = "idle" /\ uold = 0
-        /\ res = [g \in 0..MaxGen |-> "nil"]
+        /\ res = [g \in 0..MaxGen |-> "nil"] /\ obj = [g \in 0..MaxGen |-> g] /\ pubs = 0
         /\ scReady = [s \in Scs |-> s = "A"] /\ flips = 0
         /\ pc = [r \in Rpcs |-> "start"] /\ ch = [r \in Rpcs |-> -1] /\ pg = [r \in Rpcs |-> 0]
         /\ cancelled = [r \in Rpcs |-> FALSE] /\ outcome = [r \in Rpcs |-> "none"]
@@ -66,17 +77,31 @@ Init == /\ cur = 0 /\ closedG = {} /\ upc = "idle" /\ uold = 0
         /\ lastKind = [r \in Rpcs |-> "none"]
         /\ fresh = [r \in Rpcs |-> TRUE] /\ strict = [r \in Rpcs |-> TRUE]
         /\ pending = [r \in Rpcs |-> 0] /\ retReady = [r \in Rpcs |-> TRUE]
+        /\ seenPub = [r \in Rpcs |-> 0]
 
 Goto(r, p) == pc' = [pc EXCEPT ![r] = p]
-UPD == <<cur, closedG, upc, uold, res>>
+UPD == <<cur, closedG, upc, uold, res, obj, pubs>>
 ENV == <<scReady, flips>>
-GHOST == <<floor, lastUsed, lastKind, fresh, strict, pending, retReady>>
+GHOST == <<floor, lastUsed, lastKind, fresh, strict, pending, retReady, seenPub>>
 
 \* ------------------------------------------------------------------ updatePicker
 \* old := pw.pickerGen.Swap(&pickerGeneration{picker: p, ...})
 swap(k) == /\ upc = "idle" /\ cur < MaxGen /\ k \in Kinds
            /\ uold' = cur /\ cur' = cur + 1 /\ res' = [res EXCEPT ![cur + 1] = k] /\ upc' = "close"
+           /\ pubs' = pubs + 1 /\ UNCHANGED obj
            /\ UNCHANGED <<closedG, ENV, pc, ch, pg, cancelled, outcome, GHOST>>
+\* updatePicker called with the picker object that is already installed, whose result has changed to k:
+\* a publication like any other (new generation, the old channel is closed next)
+\* Mutant 5: "same picker, nothing to do" - no new generation, nobody is woken
+reswap(k) == /\ Reswap /\ upc = "idle" /\ cur >= 1 /\ cur < MaxGen /\ k \in Kinds /\ k # res[cur]
+             /\ pubs' = pubs + 1
+             /\ IF Mutant = 5
+                  THEN /\ res' = [g \in 0..MaxGen |-> IF g >= 1 /\ g <= cur /\ obj[g] = obj[cur] THEN k ELSE res[g]]
+                       /\ UNCHANGED <<cur, uold, upc, obj>>
+                  ELSE /\ uold' = cur /\ cur' = cur + 1 /\ upc' = "close"
+                       /\ obj' = [obj EXCEPT ![cur + 1] = obj[cur]]
+                       /\ res' = [g \in 0..MaxGen |-> IF g = cur + 1 \/ (g >= 1 /\ g <= cur /\ obj[g] = obj[cur]) THEN k ELSE res[g]]
+             /\ UNCHANGED <<closedG, ENV, pc, ch, pg, cancelled, outcome, GHOST>>
 \* close(old.blockingCh): every goroutine parked on it wakes and runs to its next hook ("load")
 \* Mutant 1: the old channel is not closed
 close == /\ upc = "close" /\ upc' = "idle"
@@ -85,12 +110,12 @@ close == /\ upc = "close" /\ upc' = "idle"
               ELSE /\ closedG' = closedG \cup {uold}
                    /\ pc' = [r \in Rpcs |-> IF pc[r] = "parked" /\ ch[r] = uold THEN "load" ELSE pc[r]]
                    /\ floor' = [r \in Rpcs |-> IF pc[r] = "parked" /\ ch[r] = uold THEN MaxOf(floor[r], cur) ELSE floor[r]]
-         /\ UNCHANGED <<cur, uold, res, ENV, ch, pg, cancelled, outcome, lastUsed, lastKind, fresh, strict, pending, retReady>>
+         /\ UNCHANGED <<cur, uold, res, obj, pubs, ENV, ch, pg, cancelled, outcome, lastUsed, lastKind, fresh, strict, pending, retReady, seenPub>>
 
 \* ------------------------------------------------------------------ pick
 \* the application calls pw.pick
 start(r) == /\ pc[r] = "start" /\ Goto(r, "load") /\ floor' = [floor EXCEPT ![r] = cur]
-            /\ UNCHANGED <<UPD, ENV, ch, pg, cancelled, outcome, lastUsed, lastKind, fresh, strict, pending, retReady>>
+            /\ UNCHANGED <<UPD, ENV, ch, pg, cancelled, outcome, lastUsed, lastKind, fresh, strict, pending, retReady, seenPub>>
 \* pg := pw.pickerGen.Load(); if pg.picker == nil { ch = pg.blockingCh }; if ch == pg.blockingCh -> wait else pick
 load(r) == /\ pc[r] = "load" /\ pg' = [pg EXCEPT ![r] = cur]
            /\ LET c2 == IF res[cur] = "nil" THEN cur ELSE ch[r] IN
@@ -106,11 +131,12 @@ wait(r) == /\ pc[r] = "wait"
                  /\ outcome' = [outcome EXCEPT ![r] = "canceled"] /\ UNCHANGED floor
               \/ /\ ch[r] \notin closedG /\ ~cancelled[r] /\ Goto(r, "parked")
                  /\ UNCHANGED <<outcome, floor>>
-           /\ UNCHANGED <<UPD, ENV, ch, pg, cancelled, lastUsed, lastKind, fresh, strict, pending, retReady>>
+           /\ UNCHANGED <<UPD, ENV, ch, pg, cancelled, lastUsed, lastKind, fresh, strict, pending, retReady, seenPub>>
 \* ch = pg.blockingCh; p.Pick(info) and the error classification
 pick(r) == /\ pc[r] = "pick"
            /\ ch' = [ch EXCEPT ![r] = pg[r]]
            /\ lastUsed' = [lastUsed EXCEPT ![r] = pg[r]]
+           /\ seenPub' = [seenPub EXCEPT ![r] = pubs]
            /\ lastKind' = [lastKind EXCEPT ![r] = res[pg[r]]]
            /\ fresh' = [fresh EXCEPT ![r] = @ /\ pg[r] >= floor[r]]
            /\ strict' = [strict EXCEPT ![r] = @ /\ pg[r] > lastUsed[r]]
@@ -131,7 +157,7 @@ ready(r) == /\ pc[r] = "ready"
                       /\ retReady' = [retReady EXCEPT ![r] = scReady[s]] /\ UNCHANGED pending
                  ELSE /\ Goto(r, "load") /\ pending' = [pending EXCEPT ![r] = IF Mutant = 2 THEN @ ELSE 0]
                       /\ UNCHANGED <<outcome, retReady>>
-            /\ UNCHANGED <<UPD, ENV, ch, pg, cancelled, floor, lastUsed, lastKind, fresh, strict>>
+            /\ UNCHANGED <<UPD, ENV, ch, pg, cancelled, floor, lastUsed, lastKind, fresh, strict, seenPub>>
 
 \* ------------------------------------------------------------------ environment
 \* the application cancels the RPC's context; a parked pick wakes and returns
@@ -146,7 +172,7 @@ flip(s) == /\ s \in Scs /\ flips < MaxFlips /\ flips' = flips + 1
            /\ scReady' = [scReady EXCEPT ![s] = ~@]
            /\ UNCHANGED <<UPD, pc, ch, pg, cancelled, outcome, GHOST>>
 
-Next == \/ \E k \in Kinds : swap(k)
+Next == \/ \E k \in Kinds : swap(k) \/ reswap(k)
         \/ close
         \/ \E r \in Rpcs : start(r) \/ load(r) \/ wait(r) \/ pick(r) \/ ready(r) \/ cancel(r)
         \/ \E s \in Scs : flip(s)
@@ -172,7 +198,7 @@ I_BlockNotFail ==
 \* it can only be parked if it has already used the current picker (or there is none yet)
 I_Wake == \A r \in Rpcs : pc[r] = "parked" =>
               /\ ~cancelled[r]
-              /\ upc = "idle" => (res[cur] = "nil" \/ lastUsed[r] = cur)
+              /\ upc = "idle" => (res[cur] = "nil" \/ (lastUsed[r] = cur /\ seenPub[r] = pubs))
 \* Done of a not-ready result is called before the pick loops (C23 clause); a returned result still holds its Done
 I_DoneNotReady == \A r \in Rpcs : /\ pc[r] \in {"load", "wait", "parked", "pick"} => pending[r] = 0
                                   /\ outcome[r] = "transport" => pending[r] = 1
